@@ -229,6 +229,11 @@ def main(mod, tier, seed, replay=None):
         print("  mechanism=%s: %s" % (v.get("mechanism"), str(v.get("message"))[:600]))
     if len(viol_lines) > 50:
         print("... %d more violations" % (len(viol_lines) - 50))
+    if viol_lines:
+        bym = {}
+        for _, v in viol_lines:
+            bym[v.get("mechanism")] = bym.get(v.get("mechanism"), 0) + 1
+        print("unlisted violations by mechanism:", json.dumps(bym))
 
     # inconclusive conditions
     reasons = list(agg["problems"])
